@@ -29,6 +29,8 @@ def flavors(pid):
         return set()
 def serves(fl):
     return [i for i in ids if i in CLAIMED and fl in flavors(i)]
+import subprocess
+HOOK_COMMITS = [l.split()[0] for l in subprocess.run(["git", "-C", "/repo", "log", "--format=%H %s"], capture_output=True, text=True).stdout.splitlines() if " verif hook:" in " " + l]
 checks = []
 for i in ids:
     if i not in CLAIMED: continue
@@ -38,8 +40,8 @@ for i in ids:
                    "engine": "pmc", "level_claimed": {"category": level, "text": text, "design_ref": "DESIGN.md " + ref},
                    "level_note": note, "technique": tech})
 m = {"version": 1, "setup_cmd": "make -C /verif/engine",
-     "hooks": {"guard": "PHOTON_VERIF", "enable": "no source hooks: checks compile /repo sources directly with clang (ASan, or the TSan pass with our own runtime) and interpose libc at link level",
-               "baseline_off_cmd": "ctest --test-dir /repo/_build -j8 --timeout 900", "source_commits": [], "add_only": True},
+     "hooks": {"guard": "PHOTON_VERIF", "enable": "checks compile /repo sources directly with clang (ASan, or the TSan pass with our own runtime) and interpose libc at link level; the one guarded source hook (a scheduling point before a context switch saves the outgoing context) is enabled with -DPHOTON_VERIF in the C05 targets only (harness/C05/targets.json repo_cflags)",
+               "baseline_off_cmd": "ctest --test-dir /repo/_build -j8 --timeout 900", "source_commits": HOOK_COMMITS, "add_only": True},
      "engines": [
         {"name": "core", "path": "engine/explorer.cpp", "serves_properties": [i for i in ids if i in CLAIMED and (flavors(i) & {"mv", "sv"})], "kind_free_text": "stateless deviation-bounded exhaustive explorer (choice-sequence DFS, levels by deviation count, deterministic replay)"},
         {"name": "mv", "path": "engine/mv_rt.cpp", "serves_properties": serves("mv"), "kind_free_text": "controlled scheduler for OS threads/vCPUs: scheduling point at every atomic/volatile op via the TSan ABI, virtual clock, modelled pthread blocking"},
